@@ -559,6 +559,81 @@ static void f19_render (uint64_t idx) {
 static int f19_ninputs (uint64_t idx) { return 4; }
 static pinput f19_input (uint64_t idx, int i) { pinput p = {i & 1 ? 100 : 3, i & 2 ? 41 : 8, -1, 0, 0}; return p; }
 
+/* =============================== F20: the address of a variable (addr, addr8/16/32) and accesses of every width and offset inside the addressed value =============================== */
+typedef struct { const char *t; int size, disp; } f20_acc;
+static const f20_acc F20_I[] = { /* ordered by the width of the addressed value that contains them */
+  {"i8", 1, 0}, {"u8", 1, 0},                                                                 /* addr8: 2 */
+  {"i8", 1, 1}, {"u8", 1, 1}, {"i16", 2, 0}, {"u16", 2, 0},                                   /* addr16: 6 */
+  {"i8", 1, 3}, {"u8", 1, 3}, {"i16", 2, 2}, {"u16", 2, 2}, {"i32", 4, 0}, {"u32", 4, 0},     /* addr32: 12 */
+  {"i8", 1, 7}, {"u8", 1, 7}, {"i16", 2, 6}, {"i32", 4, 4}, {"u32", 4, 4}, {"i64", 8, 0}};    /* addr: 18 */
+static const int F20_NACC[] = {18, 12, 6, 2};
+static const char *F20_ADDR[] = {"addr", "addr32", "addr16", "addr8"}, *F20_MASK[] = {"mov", "uext32", "uext16", "uext8"};
+static const f20_acc F20_D[] = {{"d", 8, 0}, {"i64", 8, 0}, {"i32", 4, 0}, {"i32", 4, 4}, {"f", 4, 0}, {"f", 4, 4}, {"u8", 1, 7}};
+#define NF20D 7
+static uint64_t f20_sub (int k) { uint64_t n = 2 * F20_NACC[k] + 1; return n * n; }
+static uint64_t f20_count (int th) { uint64_t n = 0; for (int k = 0; k < 4; k++) n += f20_sub (k); n += (2 * NF20D + 1) * (2 * NF20D + 1); return 3 * n; }
+static void f20_access (int fp, int k, int a, int second) { /* a: 0 none, odd store, even load */
+  if (a == 0) return;
+  const f20_acc *ac = fp ? &F20_D[(a - 1) / 2] : &F20_I[(a - 1) / 2]; int ld = (a - 1) % 2; char mem[40]; snprintf (mem, sizeof mem, "%s:%d(%s)", ac->t, ac->disp, second ? "p1" : "p0");
+  if (ac->t[0] == 'd') { if (ld) S ("  dmov d1, %s\n  dmov d:%d(m), d1\n", mem, 96 + 8 * second); else S ("  dmov %s, y\n", mem); }
+  else if (ac->t[0] == 'f') { if (ld) S ("  fmov f1, %s\n  fmov f:%d(m), f1\n", mem, 96 + 8 * second); else S ("  d2f f1, y\n  fmov %s, f1\n", mem); }
+  else { if (ld) S ("  mov t, %s\n  mul r, r, 31\n  add r, r, t\n", mem); else S ("  mov %s, b\n", mem); }
+}
+static void f20_render (uint64_t idx) {
+  int shape = idx % 3; idx /= 3; int k, fp = 0; for (k = 0; k < 4; k++) { if (idx < f20_sub (k)) break; idx -= f20_sub (k); } if (k == 4) { fp = 1; k = 0; }
+  int n = fp ? 2 * NF20D + 1 : 2 * F20_NACC[k] + 1, a1 = (int) (idx % n), a2 = (int) (idx / n);
+  begin_func ("i64:v, i64:p0, i64:p1, i64:t, i64:i, d:dv, d:d1, f:f1");
+  S ("  mov r, 0\n"); if (fp) S ("  dmov dv, x\n  addr p0, dv\n"); else S ("  mov v, a\n  %s p0, v\n", F20_ADDR[k]);
+  if (shape == 1) S ("  mov p1, p0\n"); /* shape 1: the address goes through a copy */
+  f20_access (fp, k, a1, 0);
+  if (shape == 2) S ("  mov i, 0\nL1:\n"); /* shape 2: the second access is in a loop and the stored value changes */
+  f20_access (fp, k, a2, shape == 1);
+  if (shape == 2) S ("  add b, b, 0x0101010101010101\n  add i, i, 1\n  blt L1, i, 2\n");
+  if (fp) S ("  dmov d:64(m), dv\n"); else S ("  %s t, v\n  mov i64:64(m), t\n", F20_MASK[k]);
+  S ("  ret r\n"); end_func ();
+}
+static int f20_ninputs (uint64_t idx) { return 9; }
+static pinput f20_input (uint64_t idx, int i) { static const int64_t av[] = {0x1122334455667788ll, -1, 0x100}, bv[] = {5, -2, (int64_t) 0x8000000080008080ull}; static const double xv[] = {1.5, -0.0, 1e300};
+  pinput p = {av[i % 3], bv[i / 3], -1, xv[i % 3], xv[i / 3] * 3}; return p; }
+
+/* =============================== F21: stack areas of inlined callees: top / dynamic alloca, block arguments, code behind the ret; call sites in loops (also loops that start at the first insn of the caller) =============================== */
+static uint64_t f21_count (int th) { return 6 * 2 * 5 * 2; }
+static void f21_render (uint64_t idx) {
+  int inl = idx % 2; idx /= 2; int cs = idx % 5; idx /= 5; int big = idx % 2; int k = (int) (idx / 2); long sz = big ? 65536 : 32;
+  ptl = 0; S ("%s", PRELUDE);
+  if (k == 5) S ("p_g: proto i64, blk:%ld(bp), i64:u\ng: func i64, blk:%ld(bp), i64:u\n  local i64:t\n  mov t, i64:(bp)\n  add t, t, i64:%ld(bp)\n  add t, t, u\n  mov i64:(bp), 99\n  mov i64:%ld(bp), 98\n  ret t\nendfunc\n", sz, sz, sz - 8, sz - 8);
+  else {
+    S ("p_g: proto i64, i64:u\ng: func i64, i64:u\n  local i64:p, i64:t, i64:n, i64:dp\n");
+    if (k == 0 || k == 1 || k == 3 || k == 4) S ("  alloca p, %ld\n", sz);
+    if (k == 2 || k == 4) S ("  and n, u, 15\n  add n, n, %ld\n  alloca dp, n\n  mov i64:(dp), u\n  mov i64:%ld(dp), 5\n", sz, sz - 8);
+    if (k == 2) S ("  mov p, dp\n");
+    S ("  mov i64:(p), u\n  mov i64:%ld(p), 5\n", sz - 8);
+    if (k == 1) S ("  add p, p, 8\n  mov i64:(p), 3\n  mov t, i64:-8(p)\n  add t, t, i64:(p)\n");
+    else S ("  mov t, i64:(p)\n  add t, t, i64:%ld(p)\n", sz - 8);
+    if (k >= 2) S ("  bgt COLD, u, 100\nBACK:\n  add t, t, 1\n");
+    if (k == 4) S ("  add t, t, i64:(dp)\n");
+    S ("  ret t\n");
+    if (k >= 2) S ("COLD:\n  mov t, 7\n  jmp BACK\n");
+    S ("endfunc\n");
+  }
+  S ("f: func i64, i64:a, i64:b, p:m, p:q, d:x, d:y\n  local i64:r, i64:r0, i64:r1, i64:cp, i64:cb\n");
+  char arg[64]; if (k == 5) snprintf (arg, sizeof arg, "blk:%ld(cb), ", sz); else arg[0] = 0;
+  const char *c = inl ? "inline" : "call";
+  if (cs == 3) S ("  alloca cp, %ld\n  mov i64:(cp), a\n  add cp, cp, 8\n  mov i64:(cp), b\n", k == 5 ? sz + 32 : 32L);
+  if (k == 5) { if (cs == 3) S ("  add cb, cp, 24\n"); else S ("  alloca cb, %ld\n", sz); S ("  mov i64:(cb), 11\n  mov i64:%ld(cb), 12\n", sz - 8); }
+  switch (cs) {
+  case 0: S ("  %s p_g, g, r0, %sa\n  mov r, r0\n", c, arg); break;
+  case 1: S ("L0:\n  %s p_g, g, r0, %sb\n  add a, a, r0\n  sub b, b, 1\n  bgt L0, b, 0\n  mov r, a\n", c, arg); break; /* without a block argument the label is the first insn of f */
+  case 2: S ("  mov r, 0\nL0:\n  %s p_g, g, r0, %sb\n  add r, r, r0\n  add r, r, a\n  sub b, b, 1\n  bgt L0, b, 0\n", c, arg); break;
+  case 3: S ("  %s p_g, g, r0, %sa\n  mov r, i64:-8(cp)\n  add r, r, i64:(cp)\n  mul r, r, 3\n  add r, r, r0\n", c, arg); break;
+  default: S ("  %s p_g, g, r0, %sa\n  %s p_g, g, r1, %sb\n  mul r, r0, 5\n  add r, r, r1\n", c, arg, c, arg); break;
+  }
+  if (k == 5) S ("  add r, r, i64:(cb)\n  add r, r, i64:%ld(cb)\n", sz - 8);
+  S ("  ret r\n"); end_func ();
+}
+static int f21_ninputs (uint64_t idx) { return 2; }
+static pinput f21_input (uint64_t idx, int i) { int big = (idx / 10) % 2; pinput p = {i ? 200 : 7, big ? 400 : 3, -1, 0, 0}; return p; }
+
 int progfam_thorough;
 static const family FAMILIES[] = {
   {"F1a-ext-chains", f1a_count, f1a_render, in_intgrid_n, in_intgrid},
@@ -584,6 +659,8 @@ static const family FAMILIES[] = {
   {"F17-identity-constants", f17_count, f17_render, f17_ninputs, f17_input},
   {"F18-loop-pointer-stores", f18_count, f18_render, f18_ninputs, f18_input},
   {"F19-multiple-results-rets", f19_count, f19_render, f19_ninputs, f19_input},
+  {"F20-variable-address", f20_count, f20_render, f20_ninputs, f20_input},
+  {"F21-inlined-stack-areas", f21_count, f21_render, f21_ninputs, f21_input},
   /* thorough only, 1.5e8 programs: kept last so that a deadline cuts this family and no other */
   {"F3t-cfg3-full", f3t_count, f3t_render, f3_ninputs, f3_input},
 };
